@@ -47,6 +47,8 @@ Replace(old, new) == (res \ {old}) \cup {new}
 KF_DirNotRechowned == \E k \in Clients : transport = 2 /\ cl[k].st \in {"acc", "est"} /\ Auth(k) # cl[k].cred
 KF_CreateMode      == \E k \in Clients : cl[k].st \in {"acc", "est"} /\ ~SubMode(OwnerOnly, Chosen(k))
 NoKF == ~KF_DirNotRechowned /\ ~KF_CreateMode
+NoKF_Dir  == ~KF_DirNotRechowned
+NoKF_Mode == ~KF_CreateMode
 
 MInit == Init /\ pc = [k \in Clients |-> 0] /\ fs = [k \in Clients |-> [f \in ShmFiles \cup SockFiles |-> 0]]
 
@@ -82,9 +84,7 @@ MHandledRef(k) ==
 (* accepted *)
 MRechownDir(k) ==
   /\ cl[k].st = "acc" /\ Step(k, 4, 5)
-  /\ IF transport = 1
-       THEN LET d == Dir(k) IN Observe(Replace(d, <<k, DirClass, Auth(k)[1], Auth(k)[2], d[5]>>))
-       ELSE UNCHANGED vars
+  /\ LET d == Dir(k) IN Observe(Replace(d, <<k, DirClass, Auth(k)[1], Auth(k)[2], d[5]>>))   \* both transports (socket: since 7a77652)
   /\ UNCHANGED fs
 MCreate(k, f) ==
   /\ cl[k].st = "acc" /\ pc[k] = 5 /\ f \in Files /\ fs[k][f] = 0
